@@ -202,19 +202,25 @@ class Walker:
                 ca, cb = canon(a), canon(b_)
                 if op in ("Gt", "Ge") or (op in ("Eq", "Ne") and ca > cb):
                     op, ca, cb = CMP_SWAP[op], cb, ca
+                    a, b_ = b_, a
                 pos = True
                 if op == "Ne":
                     op, pos = "Eq", False
                 elif op == "Le":       # a <= b  ≡  not (b < a)
                     op, ca, cb, pos = "Lt", cb, ca, False
+                    a, b_ = b_, a
                 key = ("cmp", op, ca, cb)
+                # the canonical comparison the atom is about (its truth is the atom's value)
+                self.exprs.setdefault(key, ("binop", op, a, b_, x[4] if len(x) > 4 else None))
             elif x[0] == "call":
                 c = x[1]
                 key = ("site", x[3]) if (c is None or c.get("local")) else ("pure", canon(x))
                 pos = True
+                self.exprs.setdefault(key, x)
             else:
                 key = ("expr", canon(x))
                 pos = True
+                self.exprs.setdefault(key, x)
             out = []
             for val, bb in arms:
                 truth = (val != "0")
@@ -228,6 +234,7 @@ class Walker:
                 out.append((other, None, None))
             return out
         key = ("int", canon(x))
+        self.exprs.setdefault(key, x)
         out = [(bb, key, int(val)) for val, bb in arms]
         out.append((other, key, ("not", frozenset(int(v) for v, _ in arms))))
         return out
